@@ -270,7 +270,12 @@ class HTTPHeaders(collections.abc.MutableMapping[str, str]):
             else:
                 if _FORBIDDEN_HEADER_CHARS_RE.search(new_part):
                     raise HTTPInputError("Invalid header value %r" % new_part)
-            self._as_list[self._last_key][-1] += new_part
+            if self._as_list[self._last_key][-1]:
+                self._as_list[self._last_key][-1] += new_part
+            else:
+                # Folding onto an empty first line: leading whitespace is not
+                # part of the field value.
+                self._as_list[self._last_key][-1] = new_part[1:]
             self._combined_cache.pop(self._last_key, None)
         else:
             try:
